@@ -72,7 +72,7 @@ def make_options(m, o):
                              nosp=bool(o.get('nosp')), repl=o.get('repl') or None,
                              unkn=bool(o.get('unkn')), char=True)
 
-def run_tex2txt(latex, o=None, multi=False, files=None, thresh=None, timeout=10):
+def run_tex2txt(latex, o=None, multi=False, files=None, thresh=None, timeout=10, cap_lines=0):
     """Run tex2txt; capture final token list, unknowns, extracted flows, stderr."""
     m = load()
     o = o or {}
@@ -95,6 +95,18 @@ def run_tex2txt(latex, o=None, multi=False, files=None, thresh=None, timeout=10)
     def parse(self, *a, **k):
         cap['parser'] = self
         return orig_parse(self, *a, **k)
+    orig_rpal = m.parser.Parser.remove_pure_action_lines
+    cap['lines'] = []
+    def rpal(self, tokens):
+        if len(cap['lines']) < cap_lines and any(type(t).__name__ == 'ActionToken' for t in tokens):
+            import proto
+            try:
+                cap['lines'].append([proto.tok_of_obj(t) for t in tokens])
+            except Exception:
+                pass
+        return orig_rpal(self, tokens)
+    if cap_lines:
+        m.parser.Parser.remove_pure_action_lines = rpal
     def call():
         opts = make_options(m, o)
         mod = None
@@ -108,6 +120,7 @@ def run_tex2txt(latex, o=None, multi=False, files=None, thresh=None, timeout=10)
         res = guarded(call, timeout)
     finally:
         m.utils.get_txt_pos, m.utils.get_txt_pos_ml, m.parser.Parser.parse = orig_gtp, orig_ml, orig_parse
+        m.parser.Parser.remove_pure_action_lines = orig_rpal
         if orig_open is None:
             del m.tex2txt.open
         else:
@@ -116,6 +129,7 @@ def run_tex2txt(latex, o=None, multi=False, files=None, thresh=None, timeout=10)
     p = cap.get('parser')
     res['unknowns'] = list(p.unknowns) if p is not None and hasattr(p, 'unknowns') else None
     res['lang_change'] = cap.get('lang_change')
+    res['lines_inputs'] = cap.get('lines')
     return res
 
 def parse_stderr(text):
